@@ -142,7 +142,9 @@ Lemma kt_cache_expire k id : keeps TI (cache_expire cfg k id).
 Proof. unfold cache_expire. kt. Qed.
 Lemma kt_cache_try_get k id roots : keeps TI (cache_try_get cfg k id roots).
 Proof. unfold cache_try_get. kt. Qed.
-Local Hint Resolve kt_cache_get kt_cache_put kt_cache_created kt_cache_expire kt_cache_try_get : kt.
+Lemma kt_cache_purge k id : keeps TI (cache_purge k id).
+Proof. unfold cache_purge. kt. Qed.
+Local Hint Resolve kt_cache_get kt_cache_put kt_cache_created kt_cache_expire kt_cache_purge kt_cache_try_get : kt.
 
 Lemma kt_select_init o r : keeps TI (select_init o r).
 Proof. unfold select_init. kt. Qed.
@@ -168,7 +170,7 @@ Lemma kt_so_expire o : keeps TI (so_expire cfg o).
 Proof. unfold so_expire. kt. Qed.
 Lemma kt_so_read o c : keeps TI (so_read o c).
 Proof. unfold so_read. kt. Qed.
-Lemma kt_so_destroy o : keeps TI (so_destroy cfg o).
+Lemma kt_so_destroy o : keeps TI (so_destroy o).
 Proof. unfold so_destroy. kt. Qed.
 Local Hint Resolve kt_so_sync kt_so_expire kt_so_read kt_so_destroy : kt.
 Lemma kt_so_create k kvs : keeps TI (so_create cfg k kvs).
